@@ -27,6 +27,8 @@ void msc_call_raw(void (*fn)(void), MState* st, void* alt_top);
 
 // Safe wrapper: private stack with guard pages, signal handlers for SIGSEGV/SIGBUS/SIGILL/SIGFPE/SIGTRAP on an alternate signal stack.
 // Returns 0 when fn returned, otherwise the signal number (state is then unspecified except msc_fault_addr()).
+/* CPU-time limit for one msc_run (default 20000 ms; 0 = none): on expiry msc_run returns SIGVTALRM. */
+void msc_set_cpu_limit_ms(int ms);
 int msc_run(void (*fn)(void), MState* st);
 uint64_t msc_fault_addr(void);
 uint64_t msc_fault_rip(void);
